@@ -43,6 +43,15 @@ def tx_payload(parent, label):
     if name == 'y':       # empty block with 1 byte of reward data and a two-output reward
         # (both outputs pay the same key, which has never been paid before on any chain)
         return [], K[5], dt + 2, {'cb_data': b'r', 'cb_outs': [(refmodel.subsidy(parent.height + 1) - 7, K[7]), (7, K[7])]}
+    if name == 'z':       # empty block whose reward also has a ZERO-value output paying a key that holds other outputs
+        # (reward outputs are bounded in sum only; a zero-value output is an unspent output like any other)
+        return [], K[5], dt + 4, {'cb_data': b'z', 'cb_outs': [(refmodel.subsidy(parent.height + 1), K[5]), (0, K[1])]}
+    if name == 'k':       # K1 spends ALL its positive outputs in one transaction, everything goes to K0
+        o1 = [r for r in owned(u, K[1]) if u[r][0] > 0]
+        if not o1:
+            return None
+        v = sum(u[r][0] for r in o1)
+        return [world.mk_tx([(oref(r), K[1]) for r in o1], [(v - 3, K[0])])], K[4], dt + 6
     if name == 'f':       # funding: empty block mined by K0
         return [], K[0], dt
     if name == 's':       # split
